@@ -59,6 +59,11 @@
 (*                      for ever                                           *)
 (*  GcErrorFlipsVerdict garbage collection hitting a connection error      *)
 (*                      turns finished/Success into failed/UnknownIssue    *)
+(* Each finding has a constant (NodesFatal, KillForgotten,                 *)
+(* DeleteConnEscapes, CompleteNeedsPod, FirstConditionWins): TRUE = the    *)
+(* code as found, FALSE = the repaired code (the diffs in                  *)
+(* out/proposed_fixes); g06.py sets them from G06_... environment          *)
+(* variables and expects the strong property to hold when FALSE.           *)
 (***************************************************************************)
 EXTENDS Integers, Sequences, FiniteSets, TLC, Json
 
@@ -506,7 +511,7 @@ TerminatedMeansDeleted == (terminated => (cl.job = "gone" /\ ndel = 1)) /\ ndel 
 \* objects are archived at most once, after the end, and iff the rule asks for it
 ArchiveRule == archived <= 1 /\ (archived = 1 => done) /\ ((done /\ why # "gcexc") => (archived = 1 <=> Pred(conf.archive, last.st)))
 \* garbage collection: a completed task whose rule asks for it has deleted the job unless the deletion itself failed
-GcRule == (done /\ Pred(conf.gc, last.st) /\ cnt.bad = 0 /\ Len(cl.pods) <= 1 /\ why # "gcexc") => (terminated \/ cl.job = "gone")
+GcRule == (done /\ Pred(conf.gc, last.st) /\ cnt.bad = 0 /\ cl.nd = 0 /\ why # "gcexc") => (terminated \/ cl.job = "gone")
 \* nothing escapes from a tick; only a connection error at the deletion escapes from kill()
 EscapeRule == obs.raised \in {"none", "StillWaiting", "KeyboardInterrupt", "MaxRetryError", "JobLaunchError"}
 \* every verdict has a cause the documentation names; the deviations are excluded by the constants of the promise models
@@ -558,8 +563,8 @@ StrictlyForward == [][(last.st = "running") => last'.st # "waiting_on_resource"]
 OutageNeedsLimit == [][(~Final(last.st) /\ Final(last'.st) /\ why' = "outage") => age' # NoSince /\ age' + off' > OutageLimit]_vars
 \* the wish: an unreachable API ends the task only after the documented five minutes (deviation ConnOutageThreePolls)
 OutageNeedsMinutes == [][(~Final(last.st) /\ Final(last'.st) /\ why' \in {"outage", "errs3"}) => age' # NoSince /\ age' + off' > OutageLimit]_vars
-\* a kill step whose requests all succeed and that sees at most one pod deletes the job and ends the task
-KillWorks == [][(cnt'.kills = cnt.kills + 1 /\ cnt'.bad = cnt.bad /\ Len(cl.pods) <= 1 /\ obs'.raised \in {"none", "KeyboardInterrupt"})
+\* a kill step (job not yet deleted by this task) whose requests all succeed and that sees at most one pod deletes the job and ends the task
+KillWorks == [][(cnt'.kills = cnt.kills + 1 /\ cnt'.bad = cnt.bad /\ ~terminated /\ Len(cl.pods) <= 1 /\ obs'.raised \in {"none", "KeyboardInterrupt"})
                 => (~IsAlive' /\ cl'.job = "gone")]_vars
 \* the wish: every kill ends the task (deviation / finding KillLost)
 KillAlwaysWorks == [][(cnt'.kills = cnt.kills + 1) => ~IsAlive']_vars
